@@ -271,9 +271,12 @@ def build(recipe):
             wshp = list(shp)
             if L.get("minus1") and len(shp) > 0:
                 wshp[int(np.argmax(shp))] = -1  # the largest dimension left to be inferred
-            st = add_tensor(nm + "_shape", [len(shp)], "int32", None, np.array(wshp, np.int32))
+            if L.get("shape_in") is not None:
+                st = values[L["shape_in"]]["t"]  # the shape operand is computed in the graph (a SHAPE operator)
+            else:
+                st = add_tensor(nm + "_shape", [len(shp)], "int32", None, np.array(wshp, np.int32))
             y = new_value(nm, shp, x["dtype"], x["q"])
-            add_op(BO[op], [x["t"], st], [y["t"]], ("ReshapeOptions", {"NewShape": np.array(wshp, np.int32)}))
+            add_op(BO[op], [x["t"], st], [y["t"]], ("ReshapeOptions", {"NewShape": np.array(wshp, np.int32)}) if L.get("shape_in") is None or L.get("keep_option") else ("ReshapeOptions", {}))
         elif op in ("SQUEEZE", "EXPAND_DIMS"):
             shp = L["shape"]
             y = new_value(nm, shp, x["dtype"], x["q"])
@@ -321,6 +324,24 @@ def build(recipe):
             shp[ax] //= n
             outs = [new_value(f"{nm}_{j}", shp, x["dtype"], x["q"]) for j in range(n)]
             add_op(BO[op], [at, x["t"]], [o["t"] for o in outs], ("SplitOptions", {"NumSplits": n}))
+        elif op == "SPLIT_V":
+            ax, sizes = L["axis"], list(L["sizes"])
+            if sum(sizes) != x["shape"][ax] or min(sizes) < 1:
+                raise ValueError("SPLIT_V sizes do not add up")
+            wsizes = list(sizes)
+            if L.get("minus1"):
+                wsizes[int(np.argmax(sizes))] = -1  # one size left to be inferred
+            zt = add_tensor(nm + "_sizes", [len(sizes)], "int32", None, np.array(wsizes, np.int32))
+            at = add_tensor(nm + "_axis", [1] if L.get("axis_vec") else [], "int32", None, np.array([ax - len(x["shape"]) if L.get("axis_neg") else ax], np.int32))
+            outs = []
+            for j, sz in enumerate(sizes):
+                shp = list(x["shape"])
+                shp[ax] = sz
+                outs.append(new_value(f"{nm}_{j}", shp, x["dtype"], x["q"]))
+            add_op(BO[op], [x["t"], zt, at], [o["t"] for o in outs], ("SplitVOptions", {"NumSplits": len(sizes)}))
+        elif op == "SHAPE":
+            y = new_value(nm, [len(x["shape"])], "int32", None)
+            add_op(BO[op], [x["t"]], [y["t"]], ("ShapeOptions", {"OutType": TT["INT32"]}))
         elif op == "STRIDED_SLICE":
             begin, end = L["begin"], L["end"]
             if len(begin) != len(x["shape"]) or any(not (0 <= b < e <= s_) for b, e, s_ in zip(begin, end, x["shape"])):
@@ -481,20 +502,20 @@ def gen_recipe(r, cfg=None, profile="mixed"):
         vals.append(dict(shape=[1, H, W, C], dtype=dtype, q=tuple(q2), uses=0))
     layers = []
 
-    def emit(L, shape, q=None, odtype=None, n_out=1):
+    def emit(L, shape, q=None, odtype=None, n_out=1, shapes=None):
         for v in L["in"]:
             vals[v]["uses"] += 1
         L["seed"] = r.randrange(1 << 30)
         if L["op"] == "RESHAPE" and "minus1" not in L and r.random() < 0.15:
             L["minus1"] = True
-        if L["op"] in ("CONCATENATION", "SPLIT", "PACK", "UNPACK", "MEAN", "ARG_MAX") and r.random() < 0.25:
+        if L["op"] in ("CONCATENATION", "SPLIT", "SPLIT_V", "PACK", "UNPACK", "MEAN", "ARG_MAX") and r.random() < 0.25:
             L["axis_neg"] = True  # the same axis written as a negative number
         if dtype == "int16" and L["op"] in ("CONV_2D", "DEPTHWISE_CONV_2D", "FULLY_CONNECTED", "TRANSPOSE_CONV") and "bias64" not in L:
             L["bias64"] = r.random() < float(os.environ.get("VERIF_BIAS64_P", 0.65))  # 16x8 kernels exist for 64-bit and for 32-bit bias
         layers.append(L)
         ids = []
-        for _ in range(n_out):
-            vals.append(dict(shape=list(shape), dtype=odtype or vals[L["in"][0]]["dtype"], q=q if q is not None else vals[L["in"][0]]["q"], uses=0))
+        for j_ in range(n_out):
+            vals.append(dict(shape=list(shapes[j_] if shapes else shape), dtype=odtype or vals[L["in"][0]]["dtype"], q=q if q is not None else vals[L["in"][0]]["q"], uses=0))
             ids.append(len(vals) - 1)
         return ids
 
@@ -648,6 +669,24 @@ def gen_recipe(r, cfg=None, profile="mixed"):
                 pass
             if dtype in ("int8", "uint8") and r.random() < 0.12:
                 op = "PRELU"  # per-channel alpha, some >= 1: lowered to min / mul / relu / add with temporaries
+            if op == "QUANTIZE" and r.random() < 0.4:
+                # QUANTIZE that changes the element type; usually converted back by a second one (the generator is otherwise
+                # single-typed), sometimes through an operator working in the other type, sometimes left as a network output
+                other = r.choice([t for t in ("int8", "uint8", "int16") if t != dtype])
+                q1 = _rand_q(r, other)
+                if r.random() < 0.3:
+                    # same real range seen through the other type (the exact-conversion special cases of the compiler)
+                    if {dtype, other} == {"int8", "uint8"}:
+                        q1 = (x["q"][0], x["q"][1] + (128 if other == "uint8" else -128))
+                    elif other == "int16":
+                        q1 = (f32(x["q"][0] / 256), 0)
+                a_ = emit(dict(op="QUANTIZE", q=list(q1), odtype=other, **{"in": [xi]}), x["shape"], tuple(q1), odtype=other)
+                m = r.random()
+                if m < 0.35:
+                    a_ = emit(dict(op=r.choice(["RELU", "RELU6", "MAX_POOL_2D"]), k=[2, 2], stride=[1, 1], pad="SAME", act="NONE", **{"in": a_}), x["shape"], tuple(q1), odtype=other)
+                if m < 0.8:
+                    emit(dict(op="QUANTIZE", q=list(oq), odtype=dtype, **{"in": a_}), x["shape"], tuple(oq), odtype=dtype)
+                continue
             L = dict(op=op)
             if op == "PRELU":
                 L["aq"] = [f32(r.choice([0.004, 0.01, 0.02])), 0 if dtype == "int8" else 128]
@@ -682,7 +721,8 @@ def gen_recipe(r, cfg=None, profile="mixed"):
             L["in"] = [xi]
             emit(L, x["shape"], tuple(q_))
         elif fam == "shape":
-            op = r.choice(["RESHAPE", "CONCATENATION", "PAD", "SPLIT", "STRIDED_SLICE", "CONCATENATION", "SLICE", "TRANSPOSE", "SQUEEZE_EXPAND", "UNPACK_PACK"])
+            op = r.choice(["RESHAPE", "CONCATENATION", "PAD", "SPLIT", "STRIDED_SLICE", "CONCATENATION", "SLICE", "TRANSPOSE", "SQUEEZE_EXPAND", "UNPACK_PACK",
+                           "SPLIT_V", "SHAPE"])
             if op == "SLICE":
                 begin = [0, r.randint(0, H // 2), r.randint(0, W // 2), r.randint(0, C // 2)]
                 size_ = [1, r.randint(1, H - begin[1]), r.randint(1, W - begin[2]), r.randint(1, C - begin[3])]
@@ -741,6 +781,32 @@ def gen_recipe(r, cfg=None, profile="mixed"):
                 pads = [[0, 0], [r.randint(0, 2), r.randint(0, 2)], [r.randint(0, 2), r.randint(0, 2)], [0, 0]]
                 shp = [s + p[0] + p[1] for s, p in zip(x["shape"], pads)]
                 emit(dict(op="PAD", pads=pads, **{"in": [xi]}), shp, x["q"])
+            elif op == "SPLIT_V":
+                ax = r.choice([3, 3, 1, 2])
+                n = r.choice([2, 2, 3])
+                if x["shape"][ax] < n:
+                    continue
+                cuts = sorted(r.sample(range(1, x["shape"][ax]), n - 1))
+                sizes = [b_ - a_ for a_, b_ in zip([0] + cuts, cuts + [x["shape"][ax]])]
+                shps = []
+                for sz in sizes:
+                    shp = list(x["shape"])
+                    shp[ax] = sz
+                    shps.append(shp)
+                emit(dict(op="SPLIT_V", axis=ax, sizes=sizes, minus1=r.random() < 0.3, **{"in": [xi]}), shps[0], x["q"], n_out=n, shapes=shps)
+            elif op == "SHAPE":
+                # the shape of a tensor as data: a network output, or the shape operand of a RESHAPE of another tensor with as many elements
+                sv = emit(dict(op="SHAPE", **{"in": [xi]}), [len(x["shape"])], None, odtype="int32")
+                cands = [i for i, v in enumerate(vals) if v["dtype"] == dtype and i != xi and int(np.prod(v["shape"])) == elems and v["shape"] != x["shape"]]
+                if r.random() < 0.7:
+                    if cands:
+                        ci = r.choice(cands)
+                    else:
+                        flat = [1, elems] if r.random() < 0.5 else [1, 1, H * W, C]
+                        if flat == list(x["shape"]):
+                            continue
+                        ci = emit(dict(op="RESHAPE", shape=flat, **{"in": [xi]}), flat, x["q"])[0]
+                    emit(dict(op="RESHAPE", shape=list(x["shape"]), shape_in=sv[0], keep_option=r.random() < 0.5, **{"in": [ci, sv[0]]}), x["shape"], vals[ci]["q"])
             elif op == "SPLIT":
                 ax = r.choice([3, 1, 2])
                 n = r.choice([2, 2, 3, 4])
@@ -897,6 +963,8 @@ def _n_out(L):
         return L["n"]
     if L["op"] == "UNPACK":
         return L["n_out"]
+    if L["op"] == "SPLIT_V":
+        return len(L["sizes"])
     return 1
 
 
@@ -1126,7 +1194,7 @@ def gen_corner_recipe(r):
         shp = _corner_shape(r, r.choice([1, 2, 3, 4, 4, 5]))
         x0 = inp(shp)
         n = int(np.prod(shp))
-        op = r.choice(["RESHAPE", "CONCATENATION", "PAD", "STRIDED_SLICE", "SPLIT", "PACK", "UNPACK", "TRANSPOSE", "SQUEEZE", "EXPAND_DIMS", "SLICE"])
+        op = r.choice(["RESHAPE", "CONCATENATION", "PAD", "STRIDED_SLICE", "SPLIT", "PACK", "UNPACK", "TRANSPOSE", "SQUEEZE", "EXPAND_DIMS", "SLICE", "SPLIT_V", "SHAPE"])
         if op == "RESHAPE":
             layers.append(dict(op=op, shape=r.choice([[n], [1, n], [n, 1], [1, 1, 1, n], [1, n, 1, 1], [1, 1, n, 1, 1]]), **{"in": [x0]}))
         elif op == "CONCATENATION":
@@ -1144,6 +1212,13 @@ def gen_corner_recipe(r):
             ax = r.randrange(len(shp))
             divs = [d for d in (1, 2, 3, 5, 7) if shp[ax] % d == 0 and shp[ax] >= d]
             layers.append(dict(op=op, axis=ax, n=r.choice(divs), **{"in": [x0]}))
+        elif op == "SPLIT_V":
+            ax = r.randrange(len(shp))
+            n = r.randint(1, min(3, shp[ax]))
+            cuts = sorted(r.sample(range(1, shp[ax]), n - 1))
+            layers.append(dict(op=op, axis=ax, sizes=[b_ - a_ for a_, b_ in zip([0] + cuts, cuts + [shp[ax]])], minus1=r.random() < 0.3, **{"in": [x0]}))
+        elif op == "SHAPE":
+            layers.append(dict(op=op, **{"in": [x0]}))
         elif op == "PACK":
             layers.append(dict(op=op, axis=r.randrange(len(shp) + 1), **{"in": [x0] * r.choice([1, 2, 3])}))
         elif op == "UNPACK":
@@ -1212,9 +1287,9 @@ def gen_corner_recipe(r):
     outs = list(range(n_in, nvals))
     for L in layers:
         L["seed"] = r.randrange(1 << 30)
-        if L["op"] in ("CONCATENATION", "MEAN", "SPLIT", "PACK", "UNPACK", "EXPAND_DIMS", "ARG_MAX", "GATHER") and r.random() < 0.35:
+        if L["op"] in ("CONCATENATION", "MEAN", "SPLIT", "SPLIT_V", "PACK", "UNPACK", "EXPAND_DIMS", "ARG_MAX", "GATHER") and r.random() < 0.35:
             L["axis_neg"] = True  # the same axis counted from the end
-        if L["op"] == "SPLIT" and r.random() < 0.2:
+        if L["op"] in ("SPLIT", "SPLIT_V") and r.random() < 0.2:
             L["axis_vec"] = True  # axis stored as a tensor with one element instead of a scalar
     return dict(name="corner", inputs=inputs, layers=layers, outputs=outs, dup_names=r.random() < 0.1)
 
